@@ -631,7 +631,7 @@ Lemma app_step_facts s a : app_ok a -> live s ->
   live (app_step s a) /\ paste (app_step s a) = paste s /\
   req_cursor (app_step s a) = spec_app (req_cursor s) a.
 Proof.
-  intros Ha Hl. destruct a as [| | | | | | | | |[n|]]; cbn in Ha |- *; try contradiction;
+  intros Ha Hl. destruct a as [| | | | | | | | |[n|]| |]; cbn in Ha |- *; try contradiction;
     repeat split; try exact Hl; reflexivity.
 Qed.
 
@@ -821,7 +821,7 @@ Proof.
   - apply andb_prop in Hok as [Hw Hc]. apply andb_prop in Hw as [Hw _].
     constructor; [exact Hw|]. destruct (classify req it); try discriminate; eapply IH; eassumption.
   - apply andb_prop in Hok as [Ha Ht]. constructor; [|apply (IH _ Ht)].
-    destruct a as [| | | | | | | | |[n|]]; try exact I. discriminate.
+    destruct a as [| | | | | | | | |[n|]| |]; try exact I. discriminate.
 Qed.
 
 (* user_input_exact *)
